@@ -13,6 +13,7 @@ package store
 
 import (
 	"context"
+	"sync"
 
 	"github.com/google/uuid"
 	"github.com/samber/lo"
@@ -101,6 +102,11 @@ func (s *State) IsZero() bool {
 
 type core struct {
 	store.Observable[State, Change]
+	// mu serializes the read-modify-write sequences below (CopyState ... SetState). The
+	// gossip loop and the gossip server's handlers run them concurrently, and an
+	// unserialized sequence overwrites whatever another one set in the meantime with its
+	// older snapshot (a newer heartbeat, or a whole member, is lost).
+	mu sync.Mutex
 }
 
 // ClusterKey implements Store.
@@ -113,6 +119,8 @@ func (c *core) ClusterKey() uuid.UUID {
 
 // SetClusterKey implements Store.
 func (c *core) SetClusterKey(ctx context.Context, key uuid.UUID) {
+	c.mu.Lock()
+	defer c.mu.Unlock()
 	s := c.CopyState()
 	s.ClusterKey = key
 	c.SetState(ctx, s)
@@ -137,6 +145,8 @@ func (c *core) GetHost() node.Node {
 
 // SetHost implements Store.
 func (c *core) SetHost(ctx context.Context, n node.Node) {
+	c.mu.Lock()
+	defer c.mu.Unlock()
 	snap := c.CopyState()
 	snap.Nodes[n.Key] = n
 	snap.HostKey = n.Key
@@ -145,6 +155,8 @@ func (c *core) SetHost(ctx context.Context, n node.Node) {
 
 // SetNode implements Store.
 func (c *core) SetNode(ctx context.Context, n node.Node) {
+	c.mu.Lock()
+	defer c.mu.Unlock()
 	snap := c.CopyState()
 	snap.Nodes[n.Key] = n
 	c.SetState(ctx, snap)
@@ -152,6 +164,8 @@ func (c *core) SetNode(ctx context.Context, n node.Node) {
 
 // Merge implements Store.
 func (c *core) Merge(ctx context.Context, other node.Group) {
+	c.mu.Lock()
+	defer c.mu.Unlock()
 	snap := c.CopyState()
 	for _, n := range other {
 		in, ok := snap.Nodes[n.Key]
